@@ -4,6 +4,7 @@ import fcntl, hashlib, json, os, re, subprocess, sys, tempfile, time
 VERIF = os.path.dirname(os.path.dirname(os.path.abspath(__file__)))
 LEAN_DIR = os.path.join(VERIF, "lean")
 DRIVER = os.path.join(LEAN_DIR, ".lake", "build", "bin", "driver")
+VALIDCHECK = os.path.join(LEAN_DIR, ".lake", "build", "bin", "validcheck")
 REPO = os.environ.get("CMINX_REPO", "/repo")
 REPO_SRC = os.path.join(REPO, "src")
 EVIDENCE_DIR = os.path.join(VERIF, "evidence")
@@ -62,19 +63,32 @@ def strip_comments(src):
     return "".join(out)
 
 
-def grep_forbidden():
+def import_closure(modules):
+    """project-local modules reachable through `import` lines from the given ones (file paths)"""
+    seen, todo = {}, list(modules)
+    while todo:
+        m = todo.pop()
+        if m in seen: continue
+        path = os.path.join(LEAN_DIR, *m.split(".")) + ".lean"
+        if not os.path.exists(path): continue
+        seen[m] = path
+        for line in open(path, encoding="utf-8"):
+            mm = re.match(r"\s*import\s+([A-Za-z0-9_.]+)", line)
+            if mm and mm.group(1).split(".")[0] in ("CminxModel", "CminxLemmas", "CminxProps", "Driver"):
+                todo.append(mm.group(1))
+    return seen
+
+
+def grep_forbidden(modules=None):
+    """forbidden tokens in the Lean sources the given modules depend on (default: the model and the driver).
+    Proof files of other properties — possibly work in progress — are none of this check's business."""
+    files = import_closure(list(modules or []) + ["CminxModel", "Driver.Main"])
     hits = []
-    for sub in ("CminxModel", "CminxLemmas", "CminxProps", "Driver"):
-        d = os.path.join(LEAN_DIR, sub)
-        if not os.path.isdir(d): continue
-        for root, _, files in os.walk(d):
-            for f in files:
-                if f.endswith(".lean"):
-                    body = strip_comments(open(os.path.join(root, f), encoding="utf-8").read())
-                    for m in FORBIDDEN.finditer(body):
-                        if sub == "Driver" and m.group(0) in ("unsafe ",):
-                            continue
-                        hits.append(f"{sub}/{f}: {m.group(0).strip()}")
+    for m, path in sorted(files.items()):
+        body = strip_comments(open(path, encoding="utf-8").read())
+        for mt in FORBIDDEN.finditer(body):
+            if m.startswith("Driver") and mt.group(0) in ("unsafe ",): continue
+            hits.append(f"{m}: {mt.group(0).strip()}")
     return hits
 
 
@@ -122,6 +136,23 @@ class Driver:
         for r, o in zip(requests, out):
             if "fail" in o: raise HarnessError(f"driver rejected request {str(r)[:200]}: {o['fail']}")
         return out
+
+
+class ValidCheck:
+    """optional second executable: evaluates the theorems' hypotheses (Module.valid, itemsWf, K1 guard) on decorated modules"""
+    def __init__(self):
+        self.available = os.path.exists(VALIDCHECK)
+
+    def run(self, modules, timeout=600):
+        if not self.available or not modules: return None
+        data = "".join(json.dumps(dict(module=m), ensure_ascii=False) + "\n" for m in modules).encode("utf-8")
+        try:
+            p = subprocess.run([VALIDCHECK], input=data, capture_output=True, timeout=timeout)
+            lines = [l for l in p.stdout.decode("utf-8").split("\n") if l]
+            if p.returncode != 0 or len(lines) != len(modules): return None
+            return [json.loads(l) for l in lines]
+        except Exception:
+            return None
 
 
 def write_json(path, obj):
